@@ -36,10 +36,12 @@ pub struct Module;
 fn inc(e: &Env, k: soroban_sdk::Symbol) { let n: u32 = e.storage().persistent().get(&k).unwrap_or(0); e.storage().persistent().set(&k, &(n + 1)); }
 #[contractimpl]
 impl Module {
-    pub fn on_transfer(e: &Env, _f: Address, _t: Address, _a: i128, _tok: Address) { inc(e, symbol_short!("tr")) }
+    pub fn on_transfer(e: &Env, f: Address, t: Address, a: i128, tok: Address) { e.storage().persistent().set(&symbol_short!("trl"), &(f, t, a, tok)); inc(e, symbol_short!("tr")) }
     pub fn on_created(e: &Env, _t: Address, _a: i128, _tok: Address) { inc(e, symbol_short!("cr")) }
     pub fn on_destroyed(e: &Env, _f: Address, _a: i128, _tok: Address) { inc(e, symbol_short!("de")) }
-    pub fn can_transfer(e: &Env, _f: Address, _t: Address, _a: i128, _tok: Address) -> bool { e.storage().instance().get(&symbol_short!("ct")).unwrap_or(true) }
+    pub fn can_transfer(e: &Env, f: Address, t: Address, a: i128, tok: Address) -> bool { e.storage().persistent().set(&symbol_short!("ctl"), &(f, t, a, tok)); e.storage().instance().get(&symbol_short!("ct")).unwrap_or(true) }
+    /// what the module was last asked (can_transfer) and told (on_transfer)
+    pub fn last(e: &Env, k: soroban_sdk::Symbol) -> Option<(Address, Address, i128, Address)> { e.storage().persistent().get(&k) }
     pub fn can_create(e: &Env, _t: Address, _a: i128, _tok: Address) -> bool { e.storage().instance().get(&symbol_short!("cc")).unwrap_or(true) }
     pub fn script(e: &Env, ct: bool, cc: bool) { e.storage().instance().set(&symbol_short!("ct"), &ct); e.storage().instance().set(&symbol_short!("cc"), &cc); }
     pub fn counts(e: &Env) -> (u32, u32, u32) { let g = |k| e.storage().persistent().get(&k).unwrap_or(0u32); (g(symbol_short!("tr")), g(symbol_short!("cr")), g(symbol_short!("de"))) }
@@ -239,6 +241,17 @@ impl Check for RwaReal {
                     let g = c.try_transfer(&a(*from), &a(*to), amt).is_ok();
                     let x = m.reg.contains(from) && m.reg.contains(to) && m.b(*from) >= *amt && all_true(&m, 3, &m.ct) && m.bound;
                     if x { *m.bal.entry(*from).or_insert(0) -= amt; *m.bal.entry(*to).or_insert(0) += amt; for k in m.mods(0) { m.counts.entry(k).or_default().0 += 1; } }
+                    if g && x {
+                        // every module on the two transfer hooks was asked / told about exactly this movement
+                        let want = Some((a(*from), a(*to), *amt, tok.clone()));
+                        for (hook, key) in [(3usize, symbol_short!("ctl")), (0usize, symbol_short!("trl"))] {
+                            for k in m.mods(hook) {
+                                if ModuleClient::new(e, &mods[k]).last(&key) != want {
+                                    return Err(violation("gate.compliance_asked_about_this_transfer", "module", i, format!("module {k} on hook {hook} saw other parties / amount than {s:?}")));
+                                }
+                            }
+                        }
+                    }
                     outcome = Some(("transfer", g, x));
                 }
                 Step::Forced { from, to, amt } => {
